@@ -167,6 +167,7 @@ func corpusRand() []*modSpec {
 		mk("rand-hidden-from-json", "package models\n\ntype Kind int\n\nconst (\n\tCircle Kind = iota + 1\n\tSquare\n\tTriangle\n)\n\ntype Shape interface{ isShape() }\ntype A struct{ X int }\ntype B struct{ Y string }\n\nfunc (A) isShape() {}\nfunc (B) isShape() {}\n\ntype Holder struct {\n\tK Kind `json:\"-\"`\n\tS Shape `json:\"-\"`\n\tHidden []int `gomacro:\"ignore\"`\n\tM map[string]Kind `json:\"-\" gomacro:\"ignore\"`\n\tSkip int `gomacro-data:\"ignore\"`\n\tName string\n}\n"),
 		mk("rand-imported-package-named-like-the-analysed-one", "package models\n\nimport shared \"example.com/org/models/shared/models\"\n\ntype Order struct {\n\tStatus shared.Status\n\tCurrency shared.Currency\n\tHistory []shared.Status\n}\n",
 			modFile{"shared/models/models.go", "package models\n\ntype Status int\n\nconst (\n\tPending Status = iota + 1\n\tPaid\n\tShipped\n)\n\ntype Currency string\n\nconst (\n\tEUR Currency = \"EUR\"\n\tUSD Currency = \"USD\"\n)\n\ntype Payment interface{ isPayment() }\ntype Card struct{ N int }\ntype Cash struct{ Amount int }\n\nfunc (Card) isPayment() {}\nfunc (Cash) isPayment() {}\n"}),
+		mk("rand-embedded-pointer", "package models\n\ntype Audit struct {\n\tAuthor string\n\tAt int\n}\n\ntype Meta struct{ Tags []string }\n\ntype Record struct {\n\t*Audit\n\tMeta\n\tTitle string\n}\n"),
 		mk("rand-empty", "package models\n\ntype Empty struct{}\ntype OnlyHidden struct{ a int }\ntype Zero [0]int\n\ntype S struct {\n\tE Empty\n\tO OnlyHidden\n\tZ Zero\n}\n"),
 	}
 }
